@@ -80,7 +80,8 @@ def check_ptrace(res, drv, rho_x, keep, dims, tag):
             res.exact_break("partial_trace:error-class", input=inp, impl=err, model=rep["_raw"][:200])
         return
     ref = du.textbook_partial_trace(rho, keep, dims)
-    if not du.mat_close(out, ref):
+    # the property speaks of *subsets*: an unsorted `keep` is compared with the model only (the code ignores the order of `keep`)
+    if keep == sorted(set(keep)) and not du.mat_close(out, ref):
         res.violation("partial_trace:not-reduced-state", "partial_trace differs from the textbook reduced state sum_b rho[(a,b),(a',b)]",
                       input=inp, impl=str(np.round(out, 6).tolist())[:300], expected=str(np.round(ref, 6).tolist())[:300])
     if rep["_status"] != "ok":
@@ -88,6 +89,19 @@ def check_ptrace(res, drv, rho_x, keep, dims, tag):
         return
     if not du.mat_close(out, du.parse_mat(rep).to_complex()):
         res.exact_break("partial_trace:value", input=inp, impl=str(np.round(out, 6).tolist())[:300], model=rep["m"][:300])
+    # the same call through DensityMatrix.partial_trace / QuantumState.partial_trace (argument plumbing)
+    if tag == "all-subsets" and abs(np.trace(rho).real - 1) < 1e-9 and du.min_eig(rho) > -1e-12:
+        from graphiq.state import QuantumState
+
+        try:
+            qs = QuantumState(rho.copy(), rep_type="dm")
+            qs.partial_trace(keep, dims)
+            via = np.asarray(qs.rep_data.data)
+            res.evaluations += 1
+            if not du.mat_close(via, ref, 1e-9):
+                res.violation("partial_trace:wrapper", "QuantumState.partial_trace differs from the textbook reduced state", input=inp)
+        except Exception as e:  # noqa: BLE001
+            res.violation("partial_trace:wrapper", "QuantumState.partial_trace raised on a valid call", input=inp, error=repr(e)[:200])
     res.branch([f"ptrace:keep{len(keep)}of{len(dims)}"])
     res.count("sizes", f"dims={'x'.join(map(str, dims))}")
     res.nontrivial("pt", rho_x.key(), tuple(keep), tuple(dims))
@@ -125,12 +139,14 @@ def check_pair(res, drv, ax, bx, tag, exact_f=None, exact_t=None):
         res.count("errors", f"fidelity:{err}")
         if rep["_status"] != "err" or rep.get("_err") != err:
             res.exact_break("fidelity:error-class", input=inp, impl=err, model=rep["_raw"][:200])
+        if all(du.mat_close(x, x.conj().T) and du.min_eig(x) >= -1e-12 and abs(np.trace(x).real - 1) <= 1e-9 for x in (a, b)):
+            res.violation("fidelity:raises", "fidelity raised on two valid density matrices", input=inp, error=err)
         return
     if rep["_status"] != "ok":
         res.exact_break("fidelity:error-class", input=inp, impl=f"ok {v}", model=rep["_raw"][:200])
         return
     pa, pb = purity(a), purity(b)
-    both_mixed = pa < 1 - 1e-4 and pb < 1 - 1e-4
+    both_mixed = abs(pa - 1) > 1.00101e-5 and abs(pb - 1) > 1.00101e-5      # is_pure: np.allclose(purity, 1) with rtol 1e-5, atol 1e-8
     tol = uhl_tol(a, b) if both_mixed else 1e-9
     branch = "uhlmann" if "uhlmann" in rep["_raw"].split(" ")[:2] else "pure"
     res.branch([f"fidelity:{branch}:{tag}"])
@@ -305,6 +321,18 @@ def check_infidelity(res, drv, rng, n, signs):
             res.violation("TraceDistance:wrong-value", "TraceDistance of two pure states is not sqrt(1 - F)", input=inp, value=t1, expected=math.sqrt(max(truth, 0.0)))
     except Exception as e:  # noqa: BLE001
         res.violation("TraceDistance:raises", "TraceDistance.evaluate raised on two density-matrix states", input=inp, error=repr(e)[:200])
+    try:
+        t2 = float(TraceDistance(QuantumState(ra.copy(), rep_type="dm")).evaluate(QuantumState(copy.deepcopy(tb), rep_type="s"), None))
+        res.evaluations += 1
+        if abs(t2 - math.sqrt(max(truth, 0.0))) > 1e-7:
+            if has_sign_b:
+                res.violation(F_D9, "TraceDistance of a stabilizer state with negative generators against a density-matrix target ignores the signs",
+                              input=inp, value=t2, expected=math.sqrt(max(truth, 0.0)))
+            else:
+                res.violation("TraceDistance:dm<-s:wrong-value", "TraceDistance (stabilizer state, density-matrix target) is not sqrt(1 - F)", input=inp,
+                              value=t2, expected=math.sqrt(max(truth, 0.0)))
+    except Exception as e:  # noqa: BLE001
+        res.violation("TraceDistance:raises", "TraceDistance.evaluate raised on a stabilizer state", input=inp, error=repr(e)[:200])
 
 
 def near_pure_probe(res):
@@ -325,16 +353,33 @@ def near_pure_probe(res):
 
 
 # ---------------------------------------------------------------------------------------------------------------------- run
+def _limit_known(res, keys, cap=3):
+    """known-finding violations are recorded at most `cap` times each, so that they can never fill the violation list and hide a new one"""
+    orig = res.violation
+    seen = {}
+
+    def violation(key, clause, **kw):
+        if key in keys:
+            seen[key] = seen.get(key, 0) + 1
+            res.extra.setdefault("known_finding_hits", {})[key] = seen[key]
+            if seen[key] > cap:
+                return
+        orig(key, clause, **kw)
+
+    res.violation = violation
+
+
 def run(ctx):
     res = Result()
+    _limit_known(res, (F_D9, F_NEARPURE))
     res.rule = ("one evaluation = one call of partial_trace / fidelity / trace_distance / Infidelity.evaluate; non-trivial = entangled or mixed "
                 "rational input (never a product |0> ancilla); distinct by (input matrices / tableaux, arguments)")
     drv = Driver()
     rng = ctx.rng
     # ---- 1. partial trace: every subset, entangled inputs
-    reps = 2 if ctx.quick else 10
-    for n in (1, 2, 3, 4):
-        for r in range(reps if n < 4 else max(1, reps // 2)):
+    reps = 6 if ctx.quick else 30
+    for n in (1, 2, 3, 4) if ctx.quick else (1, 2, 3, 4, 5):
+        for r in range(reps if n < 4 else max(1, reps // (3 if n == 4 else 10))):
             rho = du.rand_pure(rng, n) if r % 2 == 0 else du.rand_mixed(rng, n)
             for keep in subsets(n):
                 check_ptrace(res, drv, rho, keep, [2] * n, "all-subsets")
@@ -359,7 +404,7 @@ def run(ctx):
                        ([0], [8]), ([0, 1], [2, 4])):
         check_ptrace(res, drv, rho3, keep, dims, "malformed")
     # ---- 2. fidelity / trace distance
-    n_pairs = 14 if ctx.quick else 120
+    n_pairs = 32 if ctx.quick else 300
     for n in (1, 2, 3) if ctx.quick else (1, 2, 3, 4):
         for r in range(n_pairs // (1 if n < 3 else 2)):
             kind = r % 4
@@ -391,8 +436,15 @@ def run(ctx):
     for a, b in ((bad, good), (good, bad), (neg, good), (good, neg)):
         check_pair(res, drv, a, b, "not-a-state")
     near_pure_probe(res)
+    # purity just outside np.allclose's tolerance: must take the Uhlmann branch (model threshold is exact)
+    for eps in (Fr(1, 10 ** 4), Fr(1, 10 ** 3), Fr(1, 100)):
+        for n in (1, 2):
+            a = du.rand_pure(rng, n).scale(1 - eps) + du.rand_pure(rng, n).scale(eps)
+            b = du.rand_mixed(rng, n)
+            check_pair(res, drv, a, b, "near-threshold")
+            check_self(res, a, "near-threshold-self")
     # ---- 3. Infidelity across representations
-    n_inf = 20 if ctx.quick else 200
+    n_inf = 60 if ctx.quick else 600
     for k in range(n_inf):
         check_infidelity(res, drv, rng, rng.randint(1, 3 if ctx.quick else 4), signs=(k % 2 == 0))
     drv.close()
@@ -429,9 +481,15 @@ def replay(ctx, data):
             return None
     finally:
         drv.close()
+    from harness.common import load_known_findings
+
+    known = [k for k, _ in load_known_findings("C17")]
+    fresh = [w for w in res.violations if w["key"] not in known]
     for w in res.violations:
-        print("replay:", w["key"], "-", w["clause"])
-    return not res.violations and not res.exact_breaks
+        print("replay:", "(known finding)" if w["key"] in known else "", w["key"], "-", w["clause"])
+    for b in res.exact_breaks[:3]:
+        print("replay: model/implementation differ:", b.get("correspondence"))
+    return not fresh and not res.exact_breaks
 
 
 def search(ctx, res, proof_broken):
